@@ -1,9 +1,12 @@
 ------------------------------ MODULE TTLCache ------------------------------
-(* C15 - ttlcache as a state machine.  Time is in whole seconds.  Cleanup    *)
+(* C15 - ttlcache as a state machine.  Time is in ticks, TPS ticks per       *)
+(* second (ttl values are whole seconds, as in the API).  Cleanup            *)
 (* and Reset are TWO steps (scan, then bulk delete), exactly the documented  *)
 (* race of ttlcache.go:Cleanup/Reset and nothing else: a key refreshed       *)
 (* between the scan and the delete is deleted.                               *)
 EXTENDS Integers, FiniteSets, TLC
+
+CONSTANT TPS                    \* ticks per second: 1 in the exhaustive configurations, 10 for traces (100 ms)
 
 Miss == -1                      \* Get result for "not found"
 
@@ -11,7 +14,7 @@ Cap(ttl, maxTTL) == IF maxTTL > 0 /\ ttl > maxTTL THEN maxTTL ELSE ttl
 
 Restrict(f, S) == [x \in S |-> f[x]]
 
-SetTo(store, now, maxTTL, k, v, ttl) == (k :> [val |-> v, exp |-> now + Cap(ttl, maxTTL)]) @@ store
+SetTo(store, now, maxTTL, k, v, ttl) == (k :> [val |-> v, exp |-> now + Cap(ttl, maxTTL) * TPS]) @@ store
 GetRes(store, now, k) == IF k \in DOMAIN store /\ store[k].exp > now THEN store[k].val ELSE Miss   \* ttlcache.go:80 exp.After(now)
 Del(store, ks) == Restrict(store, (DOMAIN store) \ ks)
 Expired(store, now) == {k \in DOMAIN store : store[k].exp < now}                                   \* ttlcache.go:119 exp.Before(now)
